@@ -131,7 +131,7 @@ fn run_case_on_current_build(case: &Case, st: &mut Stats) -> CaseResult {
     let mut w: Vec<(f64, f64)> = vec![(0.0, 0.0); m];
     // a quarter of the cases: one variable carries weights with 26 significant bits (k / 2^26, k odd and above
     // 2^25: not representable in single precision), all other weights are multiples of 1/4 up to 1, so that every
-    // sum of products still has at most 50 significant bits and the comparison below stays exact
+    // sum of products has at most 50 significant bits and no summation order matters
     let fine: Option<usize> = if m > 0 && case.seps.get(1).map(|b| b % 4 == 0).unwrap_or(false) {
         Some(case.seps.get(2).copied().unwrap_or(0) as usize % m)
     } else {
@@ -245,8 +245,15 @@ fn run_case_on_current_build(case: &Case, st: &mut Stats) -> CaseResult {
         m + extras.len(),
         tail(&out.stdout)
     );
+    // with the 26-bit weight the decimal text of the weights file has 16-17 significant digits, which a JSON reader
+    // may round to a neighbouring double: there the count is compared within a relative 1e-12 (single precision
+    // would be off by 1e-8); everywhere else every value is a short dyadic number and the comparison is exact
+    let weighted_ok = match (weighted, fine) {
+        (Some(got), Some(_)) => (got - want_w).abs() <= 1e-12 * want_w.abs(),
+        (got, _) => got == Some(want_w),
+    };
     ensure!(
-        weighted == Some(want_w),
+        weighted_ok,
         "C19/weighted-model-count",
         "formula `{}`, weights {}, order {:?}: tool printed weighted count {:?}, the exact sum over models of the weight products is {}; stdout: {}",
         text,
